@@ -48,7 +48,7 @@ def harness(ctx, names, tag):
         acc_by = {"mem": me["accMem"], "etcd": me["accEtcd"], "auto": br["accAuto"], "prod": br["accProd"], "api": br["accApi"]}
         rows.append({"ev": "Name", "i": i, "segs": segs, "name": me["name"], "accBy": acc_by, "acc": any(acc_by.values()),
                      "s3": s3["s3"], "s3pre": s3["s3pre"], "cache": s3["cache"], "etcd": me["etcd"], "lease": me["lease"],
-                     "mem": me["mem"], "memc": me["memc"], "delEtcd": me["delEtcd"], "delMem": me["delMem"]})
+                     "mem": me["mem"], "memc": me["memc"], "delEtcd": me["delEtcd"], "delMem": me["delMem"], "delMemC": me["delMemC"]})
     return rows
 
 
@@ -183,7 +183,7 @@ def describe(inv, a, b):
                 out.append("S3 object %s of b lies under partition prefix %s of a" % (k, p))
                 break
     de = sorted(set(a["delEtcd"]) & (set(b["etcd"]) - set(a["etcd"])))
-    dm = sorted(set(a["delMem"]) & (set(b["mem"]) - set(a["mem"])))
+    dm = sorted((set(a["delMem"]) & (set(b["mem"]) - set(a["mem"]))) | (set(a["delMemC"]) & (set(b["memc"]) - set(a["memc"]))))
     if de:
         out.append("EtcdStore.DeleteTopic(a) removed %s of b" % de[0])
     if dm:
